@@ -343,7 +343,11 @@ def locate(path: str, tree: str, srcdir: str, builddir: str) -> str:
 
 def project(text: str, srcdir: str, builddir: str) -> T.Dict[str, T.Any]:
     top, errs = parse_text(text)
-    errors = sorted({f"{e['kind']}[{e['chars']}]@{e['where']}" for e in errs})
+    # one error class per (kind, place): the characters of all offending values of that place together
+    classes: T.Dict[T.Tuple[str, str], T.Set[str]] = {}
+    for e in errs:
+        classes.setdefault((e['kind'], e['where']), set()).update(e['chars'])
+    errors = sorted(f"{k}[{''.join(sorted(cs))}]@{w}" for (k, w), cs in classes.items())
     G: T.Dict[str, T.Any] = {'root': '', 'errors': errors, 'objs': [], 'error_lines': [e['line'] for e in errs][:20]}
     if not isinstance(top, list):
         return G
@@ -409,7 +413,7 @@ def match_graphs(G1: T.Dict[str, T.Any], G2: T.Dict[str, T.Any]) -> T.List[T.Lis
                 incoming.setdefault(r['v'], []).append((o['id'], r['k'], n))
         col = {i: fixed.get(i) or hashlib.sha1(f"{o['isa']}|{o['dig']}|{int(i == G['root'])}".encode()).hexdigest()
                for i, o in objs.items()}
-        for _ in range(12):
+        for _ in range(40):
             new = {}
             for i, o in objs.items():
                 out = [(r['k'], col.get(r['v'], 'undef')) for r in o['refs']]
